@@ -32,6 +32,20 @@ def c04_units(tier, seed):
     us.append(dict(id="C04h", harness="calendar.VH_C04h_NextMonthYear", params={"K": 100000}))
     us += cube("calendar.VH_C04i_Switch", "C04i", {}, "v_m", range(1, 13))
     us.append(dict(id="C04iGap", harness="calendar.VH_C04i_Gap", params={}))
+    # C04j: Julian Day -> date-time for every float64 value (grid 2^-31 resp. 2^-30 above JDN 2^22) of day-number chunks
+    JLO, JHI, W = 1721424, 5373484, 500
+    chunks = [(lo, min(lo + W - 1, JHI)) for lo in range(JLO, JHI + 1, W)]
+    if q:
+        rnd = random.Random(seed)
+        keep = {0, 1, len(chunks) - 1, len(chunks) - 2, (2299161 - JLO) // W, (2299161 - JLO) // W - 1, (2451545 - JLO) // W, (4194304 - JLO) // W, (4194304 - JLO) // W - 1}
+        keep.update(rnd.sample(range(len(chunks)), 40))
+        chunks = [chunks[i] for i in sorted(keep)]
+    for (lo, hi) in chunks:
+        segs = [(lo, hi)]
+        if lo < 4194304 <= hi:  # the float64 grid changes at 2^22
+            segs = [(lo, 4194303), (4194304, hi)]
+        for (a, b) in segs:
+            us.append(dict(id=f"C04j[N={a}..{b}]", harness="calendar.VH_C04j_FromJulianDay", params={"NLO": a, "NHI": b, "D": (1 << 31) if b < 4194304 else (1 << 30)}))
     for am in range(1, 13):
         for bm in range(1, 13):
             us.append(dict(id=f"C04d[am={am},bm={bm}]", harness="calendar.VH_C04d_Subtract", params={"DY": 2 if q else 12},
@@ -43,10 +57,12 @@ PROPS = {
     "C04": dict(
         units=c04_units,
         bounds={
-            "quick": "years 1..9998 symbolic; NextDay |n|<=70; NextHour |k|<=960; NextMonth |k|<=100000; Subtract |dyear|<=2; cubes on month",
-            "thorough": "years 1..9998 symbolic; NextDay |n|<=800; NextHour |k|<=9600; NextMonth |k|<=100000; Subtract |dyear|<=12",
+            "quick": "years 1..9998 symbolic; NextDay |n|<=70; NextHour |k|<=960; NextMonth |k|<=100000; Subtract |dyear|<=2; cubes on month; Julian Day inverse: every float64 value on the grid 2^-31 (2^-30 from JDN 2^22) inside ~49 chunks of 500 day numbers (first/last, the 1582 switch, J2000, the 2^22 grid change, 40 seeded random)",
+            "thorough": "years 1..9998 symbolic; NextDay |n|<=800; NextHour |k|<=9600; NextMonth |k|<=100000; Subtract |dyear|<=12; Julian Day inverse: every float64 grid value of ALL day numbers 1721424..5373484 (7305 chunks of 500)",
         },
-        outside="step sizes beyond the bounds; second-resolution JD round trip (C04-k)",
+        qtimeout={"quick": 60000, "thorough": 120000},
+        unit_timeout_ms={"quick": 400000, "thorough": 1500000},
+        outside="step sizes beyond the bounds; float64 Julian Days finer than the stated grid below JDN 2^21 (years < 1030 have one more mantissa bit); the forward one-second round trip GetJulianDay(h,m,s) -> NewSolarFromJulianDay (the forward value is an inexact float over three symbolic inputs)",
     ),
 }
 
